@@ -87,14 +87,37 @@ def run(ctx):
         return r
     # ---- premises about directive context
     ws = g.fns.get('white_space')
-    prem1 = False
-    if ws is not None and ws.tail[0] == 'ifelse' and sx.is_call(ws.tail[1], 'in_directive'):
-        variants = [n['p'] for n in sx.walk(ws.tail[2]['f'] if ws.tail[2].get('op') == 'map' else {}) if n.get('k') == 'path' and n['p'].startswith('WhiteSpace::')]
-        prem1 = ws.tail[2].get('op') == 'map' and variants == ['WhiteSpace::Space']
+    prem1 = None        # None = shape not recognised
+    if ws is not None and ws.tail and ws.tail[0] == 'ifelse':
+        cond = ws.tail[1]
+        branch = None
+        if sx.is_call(cond, 'in_directive'):
+            branch = ws.tail[2]
+        elif cond.get('k') == 'unary' and cond['op'] == '!' and sx.is_call(cond['e'], 'in_directive'):
+            branch = ws.tail[3]
+        if isinstance(branch, dict):
+            def built(px):
+                out = []
+                if isinstance(px, dict):
+                    if px.get('op') == 'map' and isinstance(px.get('f'), dict):
+                        out += [n['p'] for n in sx.walk(px['f']) if n.get('k') == 'path' and n['p'].startswith('WhiteSpace::')]
+                    for v in px.values():
+                        if isinstance(v, dict) and 'op' in v:
+                            out += built(v)
+                        elif isinstance(v, list):
+                            for x in v:
+                                out += built(x)
+                return out
+            variants = built(branch)
+            if variants:
+                prem1 = set(variants) == {'WhiteSpace::Space'}
     r.inst('premise:white_space-in-directive-yields-Space-only', {'holds': prem1})
-    if not prem1:
+    if prem1 is False:
         r.fail('sv-parser-parser:white_space:directive-branch', '-', 'white_space: the in_directive() branch must build only WhiteSpace::Space (premise of the context-aware '
-               'emission analysis; fail closed)')
+               'emission analysis)')
+    elif prem1 is None:
+        r.undecided('sv-parser-parser:white_space:directive-branch', '-', 'white_space is not written as `if in_directive() { <Space only> } else { .. }`: the premise "inside a '
+                    'directive blanks are WhiteSpace::Space" of the context-aware emission analysis could not be established')
     # every CompilerDirective:: variant is constructed only in functions that bracket with begin_directive/end_directive
     builders = set()
     for f in g.parsers():
